@@ -1,7 +1,10 @@
 /-
   Heap model of the emitted list helper templates (`LIST_HELPER_SNIPPET` in emitter.py) and of the usage forms the
   transpiler emits for list-valued names.  `__redu_list<T>` is a plain struct {T *data; size_t size;} with no copy
-  semantics, `new[]`/`delete[]` only inside the helpers.
+  semantics, `new[]`/`delete[]` only inside the helpers.  Usage forms: declaration from a maker, first copy `y = x`
+  (struct copy), re-assignment from a variable / from a temporary (`__redu_list_assign`), append, remove, get, len, and
+  the tuple swap `x, y = y, x` of two declared lists (two shallow struct temporaries, then plain struct assignments —
+  the helpers are not involved, nothing is allocated or freed).
 -/
 namespace Reduino.Fw.Heap
 
@@ -39,6 +42,9 @@ inductive Op where
   /-- `__redu_list_get(x, i)` (negative `i` counts from the end) -/
   | get (x : String) (i : Int)
   | len (x : String)
+  /-- `x, y = y, x`: `__redu_list<T> t0 = y; __redu_list<T> t1 = x; x = t0; y = t1;` — the two structs are exchanged
+      (the temporaries are block-scoped shallow copies and die with the statement) -/
+  | swap (x y : String)
   deriving Repr
 
 def liveBlocks (h : Heap) : Nat := (h.blocks.filter (·.alive)).length
@@ -130,6 +136,12 @@ def step (h : Heap) : Op → Except MemErr StepOut
       let cells ← readAll h l
       pure { heap := h, value := cells[idx.toNat]? }
   | .len x => .ok { heap := h, value := some (Int.ofNat (lookup h x).size) }
+  | .swap x y =>
+    if x = y then .ok { heap := h }     -- `x = t0; x = t1;` with both temporaries equal to `x`
+    else
+      let t0 := lookup h y
+      let t1 := lookup h x
+      .ok { heap := setVar (setVar h x t0) y t1 }
 
 def run (h : Heap) : List Op → Except MemErr Heap
   | [] => .ok h
